@@ -59,7 +59,9 @@ def snapshot(base):
 
 def one(t):
     k, kind, spec, seed = t
-    work = lib.mkscratch("c07")
+    outer = lib.mkscratch("c07")
+    work = os.path.join(outer, "w")          # `-o ../FILE` of some cases lands in `outer`, which is removed with the rest
+    os.makedirs(work)
     try:
         base = build(work, seed)
         bind = os.path.join(work, "bin")
@@ -105,7 +107,7 @@ def one(t):
         res["calls_seen"] = len(log)
         return res
     finally:
-        lib.rmtree(work)
+        lib.rmtree(outer)
 
 
 def main(tier):
